@@ -76,6 +76,18 @@ def run(ctx):
         for g, bb, kind in facts.field_reads(adt, fld):
             okf = g.id in (spawn.id, worker.id) or g.rec.get("impl_self_adt") == TP
             ctx.ob("C08.1", "%s.%s|reader|%s" % (adt, fld, g.id), "the worker counters are used only by the pool itself", okf, g.loc(bb))
+    nctr = shared.pool_counter_discipline(ctx, "C08.1")
+    ctx.floor("C08.1 counter writes", nctr, 2)
+    # the idle registration is taken by the worker right before it parks and lives until after the wake-up
+    wregs = [(bb, t) for bb, t in worker.calls() if call_is(t, roles.inherent(facts, REG, "new").id) and "waiting_tasks" in arg_origin_fields(worker, t)]
+    waits = [bb for bb, t in worker.calls() if call_is(t, CV_WAIT, CV_WAIT_T)]
+    okw = len(wregs) == 1 and bool(waits) and all(worker.dominates(wregs[0][0], w_, unwind=False) for w_ in waits)
+    if okw:
+        gl_ = wregs[0][1]["dest"]["l"]
+        gd_ = {bb for bb, t in worker.drops() if not t["pl"]["p"] and t["pl"]["l"] == gl_}
+        r_ = worker.reach([worker.normal_target(wregs[0][0])], blocked=gd_, unwind=True)
+        okw = not [x for x in r_ if worker.term(x)["t"] in ("return", "resume")] and not (r_ & {wregs[0][0]})
+    ctx.ob("C08.1", "%s|idle-count-guarded" % worker.id, "a worker counts as idle from just before it parks until it has woken up, and gives the count back on every exit (early return, unwinding)", okw, "%s:%d" % (worker.file, worker.line))
     # push happens under the lock and is followed by a notify
     nots = set(f.call_blocks(lambda t: call_is(t, *CV_NOTIFY)))
     for pb in pushes:
